@@ -6,7 +6,7 @@ declare -A TARGET=( [F10-revert]="C04" [F4-revert]="C04" [F8a-revert]="C19" [F5F
 seeds=${@:-$(ls seeded)}
 for s in $seeds; do
   [ -d seeded/$s ] || continue
-  base=${s%-r[0-9]}
+  base=${s%%-r[0-9]*}
   props=${TARGET[$s]:-$base}
   patch=$(realpath seeded/$s/patch.diff)
   ( cd /repo && git apply --check "$patch" 2>/dev/null ) || { echo "$s: PATCH DOES NOT APPLY"; continue; }
